@@ -59,13 +59,14 @@ def fieldNames : List String :=
 
 /-- what the model's `clear` copies back from `tmp` (sorted) -/
 def clearKeeps : List String :=
-  ["control_block", "deinterleave", "input_fn", "input_fn_state", "interleave", "io_spec", "max_ilen", "num_channels",
-   "q_spec", "runtime_spec"]
+  ["control_block", "deinterleave", "input_fn", "input_fn_state", "interleave", "io_ratio", "io_spec", "max_ilen",
+   "num_channels", "q_spec", "runtime_spec"]
 
 theorem fields_match : Generated.structFields = fieldNames := by decide
 theorem clear_preserved_match : Generated.clearPreserved = clearKeeps := by decide
 theorem clear_shape_match :
     Generated.clearMemset = true ∧ Generated.clearCallsDelete0 = true ∧ Generated.clearResetTest = true ∧
+    Generated.clearRatioKeptOnlyWithReset = true ∧ Generated.clearGuardsSetRatio = true ∧
     Generated.delete0Memset = true ∧ Generated.createCallocs = true ∧ Generated.fatalWipesThenSetsError = true ∧
     Generated.resetOnClear = resetBit := by decide
 theorem set_input_fn_match : Generated.setInputFnAssigns = ["input_fn", "input_fn_state", "max_ilen"] := by decide
@@ -162,15 +163,28 @@ def setInputFn (p : Soxr σ) (fn state maxIlen : Nat) : Soxr σ :=
 
 def hasReset (q : QSpec) : Bool := (q.flags / resetBit) % 2 = 1
 
-/-- `soxr_clear` -/
+/-- what `soxr_clear` rebuilds before it decides about the ratio: all-zero bytes plus the members copied back from `tmp` -/
+def clearBase (tmp : Soxr σ) : Soxr σ :=
+  { num_channels := tmp.num_channels, io_ratio := 0, error := 0, q_spec := tmp.q_spec, io_spec := tmp.io_spec,
+    runtime_spec := tmp.runtime_spec, input_fn_state := tmp.input_fn_state, input_fn := tmp.input_fn, max_ilen := tmp.max_ilen,
+    shared := false, resamplers := none, control_block := tmp.control_block, deinterleave := tmp.deinterleave,
+    interleave := tmp.interleave, channel_ptrs := false, clips := 0, seed := 0, flushing := 0 }
+
+/-- `soxr_clear` as it is in /repo now (after the F18 repair, commit 76fe472):
+    `if (!RESET_ON_CLEAR) return 0;  p->io_ratio = tmp.io_ratio;  return (p->num_channels && p->io_ratio != 0)? soxr_set_io_ratio(…) : 0;` -/
 def clear (W : Eng σ) (p : Soxr σ) : Soxr σ × Nat :=
-  let tmp := p
-  let p0 : Soxr σ :=
-    { num_channels := tmp.num_channels, io_ratio := 0, error := 0, q_spec := tmp.q_spec, io_spec := tmp.io_spec,
-      runtime_spec := tmp.runtime_spec, input_fn_state := tmp.input_fn_state, input_fn := tmp.input_fn, max_ilen := tmp.max_ilen,
-      shared := false, resamplers := none, control_block := tmp.control_block, deinterleave := tmp.deinterleave,
-      interleave := tmp.interleave, channel_ptrs := false, clips := 0, seed := 0, flushing := 0 }
-  if hasReset p0.q_spec then setIoRatio W p0 tmp.io_ratio 0 else (p0, 0)
+  let p0 := clearBase p
+  if hasReset p0.q_spec then
+    let p1 : Soxr σ := { p0 with io_ratio := p.io_ratio }
+    if p1.num_channels ≠ 0 ∧ p1.io_ratio ≠ 0 then setIoRatio W p1 p.io_ratio 0 else (p1, 0)
+  else (p0, 0)
+
+/-- HISTORICAL: `soxr_clear` as first pinned (before 76fe472):
+    `return (p->q_spec.flags & RESET_ON_CLEAR)? soxr_set_io_ratio(p, tmp.io_ratio, 0) : 0;` — the ratio reached the struct
+    only through `soxr_set_io_ratio`, which refuses before storing it while the channel count is unknown (finding F18) -/
+def clearOld (W : Eng σ) (p : Soxr σ) : Soxr σ × Nat :=
+  let p0 := clearBase p
+  if hasReset p0.q_spec then setIoRatio W p0 p.io_ratio 0 else (p0, 0)
 
 /-- footprint of every other API call on the object (process / output / set_error …) -/
 structure Dyn (p p' : Soxr σ) : Prop where
